@@ -845,6 +845,50 @@ class Gen:
         self.meta.setdefault("files", []).extend([path] + ([decoy] if decoy else []))
         return out
 
+    # ------------------------------------------------------------------ C20: independent instances, interleaved use
+    def case_C20(self, idx):
+        """two (or three) independent models with their own constraint sets: the routine sequences run interleaved on the
+        live instances and again, each alone, on fresh instances; every observable must be bit-identical"""
+        r = self.r
+        ninst = r.randint(2, 3)
+        insts = []
+        for k in range(ninst):
+            lines, ops, coords, sph = self._model_nonempty(nmin=1, nmax=5)
+            q0, _, _, _ = self.state(coords, sph)
+            cl = []
+            if r.random() < 0.5:
+                cl, rows, _ = self.cset(ops, coords, sph, q0, max_rows=max(1, len(coords) - 1))
+            calls = []
+            for _ in range(r.randint(3, 6)):
+                rt = r.choice([x for x in self.ALLR if x != "scramble"] + (["cjac", "csys", "fdc"] if cl else []))
+                self.count("calls", rt)
+                if rt in ("cjac", "csys", "fdc"):
+                    _, qd, _, tau = self.state(coords, sph); Q = self.vec(q0)
+                    calls.append({"cjac": "cjac 1 %s" % Q, "csys": "csys %s %s %s F 0" % (Q, self.vec(qd), self.vec(tau)),
+                                  "fdc": "fdc %s %s %s %s F 0" % (r.choice(["direct", "range", "null"]), Q, self.vec(qd), self.vec(tau))}[rt])
+                else:
+                    d = self.make_call(rt, ops, coords, sph)
+                    calls.append(self.render(d))
+                    if r.random() < 0.3 and rt in self.FLAGGED and rt not in ("com", "zmp", "crba", "minv"):
+                        # the same query again with the update flag cleared: relies on this instance's own state, while
+                        # calls on the other instances may run in between
+                        d2 = dict(d); d2["flag"] = 0; calls.append(self.render(d2))
+            insts.append(dict(build=lines + cl, calls=calls))
+        out = ["case x"]
+        for k, it in enumerate(insts): out += ["use %d" % k] + it["build"]
+        # interleaved
+        pos = [0] * ninst; seqs = [[] for _ in range(ninst)]
+        while any(pos[k] < len(insts[k]["calls"]) for k in range(ninst)):
+            k = r.choice([k for k in range(ninst) if pos[k] < len(insts[k]["calls"])])
+            out.append("use %d" % k); out.append(insts[k]["calls"][pos[k]]); seqs[k].append(len(out) - 2); pos[k] += 1
+        # alone, on fresh instances
+        for k, it in enumerate(insts):
+            out += ["use %d" % (ninst + k)] + it["build"]
+            for j, cl in enumerate(it["calls"]):
+                out.append(cl); self.meta["same"].append((seqs[k][j], len(out) - 2, "*"))
+        self.meta["nontrivial"] = True
+        return out
+
     def case_C14(self, idx):
         """construction sequences with a rejected call injected; dump before and after every add"""
         r = self.r
